@@ -52,7 +52,7 @@ def main():
     open(os.path.join(out, "patch.diff"), "w").write(diff)
     shutil.copy(os.path.join(wt, demo), os.path.join(out, demo))
     if meta["valid"] and not os.environ.get("SEED_NO_CHECK"):
-        env = dict(os.environ, OMBOTT_REPO=wt)
+        env = dict(os.environ, OMBOTT_REPO=wt, VERIF_EVIDENCE_OUT="/tmp/seed_ev_%s.json" % name)
         rc, o, t = run([os.path.join(ROOT, "check"), pid, tier], cwd=ROOT, env=env)
         viol = [ln for ln in o.splitlines() if ln.startswith("VIOLATION")]
         first = ""
